@@ -306,6 +306,16 @@ def run_case(spec, j):
   A0 = trace[0][0]
   # the initial matrix is the documented option
   pts = np.unique(pairs.reshape(-1, d), axis=0)
+  if isinstance(p['init'], str) and p['init'] == 'covariance':
+    # few points (tiny pair sets): the covariance is singular and which of
+    # its rounding-noise eigenvalues a pseudo-inverse keeps is decided at the
+    # noise level of the eigen-solver - the "initial matrix" is then not a
+    # well-defined function of the input (same regime as DESIGN 6, item 4)
+    from ..oracles import psd
+    Cp = np.atleast_2d(np.cov(pts, rowvar=False)) if len(pts) > 1 else None
+    if Cp is None or psd.rank_in_noise_regime(Cp):
+      j.skip('C14', 'covariance-init-rank-in-noise-regime')
+      return
   A0h = E.harness_prior(p['init'], pts, d, seed)
   w0 = np.linalg.eigvalsh((A0h + A0h.T) / 2)
   j.close('C14.initial-matrix', A0, A0h,
